@@ -411,6 +411,24 @@ theorem rpUnlock_backed {N : Nat} {s s' : State} {j v : Nat} (h : rpUnlock s j v
   simp only [hr, natOf] at this ⊢
   rename_i hne; omega
 
+theorem credit_le (sp : SP) (x : Nat) : credit sp x ≤ x := by unfold credit; split <;> omega
+
+/-- `commit_blobber_read`: the read pool loses the price of the marker, the blobber's stake pool gains at most that -/
+theorem readRedeem_backed {N : Nat} {s s' : State} {k i j p : Nat} (h : readRedeem s k i j p = .ok s') (hj : j < N)
+    (g : Good N s) : Backed N s s' ∧ Good N s' := by
+  obtain ⟨hb, hw⟩ := g
+  unfold readRedeem at h
+  ok_branches h
+  rename_i sp hsp hlt
+  have hi := hb.sps_lt hsp
+  have h1 := sumMap_le spVal s.sps hi
+  have h2 := sumMap_le natOf s.rps hj
+  have hc := credit_le sp p
+  refine ⟨?_, by bounded_close hb, by wf9_close hw⟩
+  unfold Backed L; simp only []
+  rw [sumMap_set spVal _ _ hi, sumMap_set natOf _ _ hj]
+  cases hr : s.rps j <;> simp only [hr, hsp, natOf, spVal, Option.getD] at h1 h2 hlt ⊢ <;> omega
+
 theorem map_eq_none' {α β : Type} {f : α → β} {o : Option α} (h : o.map f = none) : o = none := by
   cases o <;> simp at h ⊢
 
@@ -539,8 +557,6 @@ theorem respPass_backed {N : Nat} {s s' : State} {k i D m V dp : Nat} {cr : List
             refine ⟨?_, hbv x hx, this.2.2⟩
             simp only; rw [Map.set_other _ _ (by omega)]; exact this.1
     · cases h
-
-theorem credit_le (sp : SP) (x : Nat) : credit sp x ≤ x := by unfold credit; split <;> omega
 
 theorem sumMap_le2 {α : Type} (f : Option α → Nat) (m : Map α) {i j n : Nat} (hi : i < n) (hj : j < n) (hne : i ≠ j) :
     f (m i) + f (m j) ≤ sumMap f m n := by
